@@ -73,8 +73,9 @@ class C11Disk(Scenario):
         if r < 86:
             return {"op": "chdir", "dir": rng.choice(seams.Scratch.DIRS)}
         if r < 91:
-            return {"op": "export", "dir": rng.choice(seams.Scratch.DIRS),
-                    "style": rng.choice(("abs", "rel", "path", "relpath", "dirlink", "home", "dirlinkpath"))}
+            return {"op": "export", "dir": rng.choice(seams.Scratch.DIRS) if rng.chance(1, 2) else "b",
+                    "style": rng.choice(("abs", "rel", "path", "relpath", "dirlink", "home", "dirlinkpath")),
+                    "keep_dest": rng.chance(1, 2)}
         if r < 92:
             return {"op": "export_self", "style": rng.choice(("abs", "rel", "path", "relpath", "dirlink", "home", "dirlinkpath"))}
         if r < 93:
@@ -513,9 +514,13 @@ class C11Disk(Scenario):
         name = "copy.blm"
         dest_abs = self.scr.abspath(d, name)
         spelled = self.scr.spell(d, name, style)
-        with open(dest_abs, "wb") as fh:  # stale destination: longer garbage
-            fh.write(b"\xAA" * ((self.m + 7) // 8 + 57))
-        self.ctx.fault("stale_dest")
+        if step.get("keep_dest") and os.path.exists(dest_abs):
+            # the destination still holds an EARLIER export of this filter (same size, written moments ago)
+            self.ctx.fault("dest_holds_earlier_export")
+        else:
+            with open(dest_abs, "wb") as fh:  # stale destination: longer garbage
+                fh.write(b"\xAA" * ((self.m + 7) // 8 + 57))
+            self.ctx.fault("stale_dest")
         sig = {"phase": "export", "op": "export", "cwd_is_file_dir": self.scr.cwd == self.cfg["dir"], "style": style}
         f = self.f
         try:
